@@ -76,6 +76,11 @@ CHECKS = {
          "Every fragment of 1..3 commits with tables from a pool that shares blocks, every ancestor-closed set of commits and every set of tables already at the destination, every admissible common set, and bounded deviations over the packfile size limit (down to 1 byte, so every object gets its own packfile), stray blocks and depth-limited table sets are sent by the real ObjectSender and received by the real ObjectReceiver; the two stores are compared object by object, received tables pass the structural oracle and diff empty against the originals, and the order of arrival is checked. All permutations of the objects of a small transfer are fed to fresh receivers to show that nothing is accepted while a prerequisite is missing.",
          "Trusted: store comparison and the order checker (100 lines); in-memory stores. The sender's precondition (common commits are full at the destination) is assumed here and exercised end-to-end in C09.",
          "DESIGN.md §4 C07"),
+ "C05": ("exploration",
+         "bounded-exhaustive enumeration of (base, branches) tuples through the real Merger against a cell model and algebraic laws, deviation-bounded edits",
+         "Every base subset of 3 keys, with per-key edits per branch, column operations, key position, keyless tables and untouched filler rows explored up to a stated number of deviations from 'no edit', is ingested and merged by the real Merger following the CLI's flow (both the row output and the committed block output). Oracles: an exact cell model (conflict set and result rows) for tuples that keep the column set; the laws merge(base;X,base)=X, merge(base;X,X)=X and order independence by column name; untouched rows unchanged under their own column names; the committed result passes the structural oracle. Failures are classified by input shape; the shapes key-not-first, column-op and keyless fail on this tree and are recorded as known findings (the repository's own test pins the behaviour), the plain shape must be clean.",
+         "Trusted: the cell model (90 lines) written from the repository's conventions; in-memory store with a write overlay. 3 keys, 2 value columns, one column operation per branch, N <= 3. Goroutine scheduling inside the merger is free here (decided in C16).",
+         "DESIGN.md §4 C05"),
 }
 
 NOT_YET = {}
